@@ -130,15 +130,24 @@ def goTypeName : GVal → String
   | .struct n _ => "main." ++ n
   | _ => "?"
 
-/-- `%v` of a value (floats: see `showFloat`) -/
-partial def showV : GVal → String
+/-- `%v` of a composite value (never printed by the runtime helpers; kept for completeness) -/
+partial def showComposite : GVal → String
   | .int _ _ v => toString v
   | .float b x => Goml.Sem.showFloat b x
   | .bool b => if b then "true" else "false"
   | .str s => s
   | .unit => "{}"
-  | .struct _ fs => "{" ++ " ".intercalate (fs.map fun (_, v) => showV v) ++ "}"
+  | .struct _ fs => "{" ++ " ".intercalate (fs.map fun (_, v) => showComposite v) ++ "}"
   | _ => "?"
+
+/-- `%v` of a value (floats: see `showFloat`) -/
+def showV : GVal → String
+  | .int _ _ v => Goml.Sem.showInt v
+  | .float b x => Goml.Sem.showFloat b x
+  | .bool b => if b then "true" else "false"
+  | .str s => s
+  | .unit => "{}"
+  | v => showComposite v
 
 /-- `fmt.Sprintf` for the verbs the runtime uses; a verb applied to the wrong kind of operand
     renders as `%!d(float32=3.5)` exactly as Go does -/
@@ -152,7 +161,7 @@ def sprintf (fmt : List Char) (args : List GVal) (acc : String) : String :=
     | a :: args' =>
       let piece : String :=
         match c, a with
-        | 'd', .int _ _ v => toString v
+        | 'd', .int _ _ v => Goml.Sem.showInt v
         | 'v', v => showV v
         | 's', .str s => s
         | 'q', .str s => goQuote s
